@@ -72,6 +72,37 @@ def A1_inventory(rep, flow):
                     v = n.value
                     if isinstance(v, ast.Attribute) and v.attr in class_names and isinstance(v.value, ast.Name) and v.value.id in ("cls", "self"):
                         rep.finding("A1", f"{f.fq}:{pyfacts.norm_stmt(n)}", f"{pyfacts.where(f, n)}: class-level table .{v.attr} is returned as such (a caller mutating it changes later results)")
+    # module state re-bound at run time (`global x; x = ...`)
+    for m in prog.modules.values():
+        for f in m.all_funcs:
+            gl = set()
+            for n in ast.walk(f.node):
+                if isinstance(n, ast.Global):
+                    gl |= set(n.names)
+            if not gl:
+                continue
+            # locals that (transitively) depend on a parameter
+            dep = set(f.params)
+            for _ in range(4):
+                for n in ast.walk(f.node):
+                    if isinstance(n, (ast.Assign, ast.AugAssign, ast.AnnAssign)) and getattr(n, "value", None) is not None:
+                        if any(isinstance(x, ast.Name) and x.id in dep for x in ast.walk(n.value)):
+                            for t in (n.targets if isinstance(n, ast.Assign) else [n.target]):
+                                for x in ast.walk(t):
+                                    if isinstance(x, ast.Name) and x.id not in gl:
+                                        dep.add(x.id)
+                    elif isinstance(n, (ast.For, ast.comprehension)):
+                        if any(isinstance(x, ast.Name) and x.id in dep for x in ast.walk(n.iter)):
+                            for x in ast.walk(n.target):
+                                if isinstance(x, ast.Name):
+                                    dep.add(x.id)
+            for n in ast.walk(f.node):
+                if isinstance(n, (ast.Assign, ast.AugAssign)):
+                    tg = n.targets if isinstance(n, ast.Assign) else [n.target]
+                    if any(isinstance(t, ast.Name) and t.id in gl for t in tg):
+                        if any(isinstance(x, ast.Name) and x.id in dep for x in ast.walk(n.value)):
+                            raise AnalysisError(f"{pyfacts.where(f, n)}: module-level state `{', '.join(sorted(gl))}` is re-bound to a value computed from the parameters of {f.qualname} [{pyfacts.norm_stmt(n)}]: later results may depend on the call history, and this form of state is outside what the cache rules (A2/A3/A5: dictionaries keyed by their arguments) can decide")
+                        rep.note(f"{f.fq} re-binds module-level `{', '.join(sorted(gl))}` to a parameter-independent value (lazy initialisation)")
     for c, n in inv["class"]:
         rep.ok("A1", 1, nontrivial=(c.fq, n), sample=f"class table {c.fq}.{n}: never written, never returned")
     for m, n in inv["module"]:
